@@ -87,6 +87,49 @@ def allowed_fallbacks():
     return defn("cfg_key_allowed", "string", coq_string(keys[0]))
 
 
+def _fallback_chain(e: ast.expr, key: str) -> list[str]:
+    """lang_config.get(K, config.get(K, DEFAULT)) -> ["lang", "top", "default"]"""
+    e = e.args[0] if isinstance(e, ast.Call) and isinstance(e.func, ast.Name) and e.func.id == "set" and len(e.args) == 1 else e
+    if isinstance(e, ast.Call) and _is_method(e, "get") and isinstance(e.func.value, ast.Name) and e.func.value.id in ("lang_config", "config"):
+        if not (len(e.args) == 2 and isinstance(e.args[0], ast.Constant) and e.args[0].value == key):
+            raise Unsupported(f"lookup of another key inside the {key} fallback chain: {ast.unparse(e)}")
+        return ["lang" if e.func.value.id == "lang_config" else "top"] + _fallback_chain(e.args[1], key)
+    if isinstance(e, ast.Name) and e.id == "DEFAULT_ALLOWED_NUMBERS" and key == "allowed_numbers":
+        return ["default"]
+    if isinstance(e, ast.Constant) and isinstance(e.value, int) and key == "max_small_integer":
+        return ["default"]
+    raise Unsupported(f"unexpected {key} fallback {ast.unparse(e)}")
+
+
+def fallback_chains():
+    """the sources from_dict consults, in order, when the section of the file's language exists / does not exist"""
+    f = find_func(find_class(parse(D + "config.py"), "MagicNumberConfig"), "from_dict")
+    ifs = [st for st in f.body if isinstance(st, ast.If)]
+    if not ifs or ast.unparse(ifs[0].test) != "language and language in config":
+        raise Unsupported("from_dict: language test")
+    br = ifs[0]
+    if not (br.body and ast.unparse(br.body[0]) == "lang_config = config[language]"):
+        raise Unsupported("from_dict: lang_config = config[language]")
+    out = ""
+    for which, body in (("lang", br.body), ("top", br.orelse)):
+        for key, short in (("allowed_numbers", "allowed"), ("max_small_integer", "max_small")):
+            hits = [st.value for st in body if isinstance(st, ast.Assign) and ast.unparse(st.targets[0]) == key]
+            if len(hits) != 1:
+                raise Unsupported(f"from_dict: assignment of {key} in the {which} branch")
+            out += defn(f"cfg_{short}_chain_{which}", "list string", coq_str_list(_fallback_chain(hits[0], key)))
+    langs = []
+    g = find_func(parse("src/core/base.py"), "_dispatch_by_language")
+    for n in ast.walk(g):
+        if isinstance(n, ast.Attribute) and isinstance(n.value, ast.Name) and n.value.id == "Language":
+            langs.append(n.attr)
+    if sorted(langs) != sorted(["PYTHON", "TYPESCRIPT", "JAVASCRIPT", "RUST"]):
+        raise Unsupported(f"language dispatch {langs}")
+    langs = ["PYTHON", "TYPESCRIPT", "JAVASCRIPT", "RUST"]
+    enum = find_class(parse("src/core/constants.py"), "Language")
+    names = {st.targets[0].id: const_value(st.value) for st in enum.body if isinstance(st, ast.Assign)}
+    return out + defn("cfg_language_keys", "list string", coq_str_list([names[k] for k in langs]))
+
+
 def max_small():
     cls = find_class(parse(D + "config.py"), "MagicNumberConfig")
     hits = [st for st in cls.body if isinstance(st, ast.AnnAssign) and isinstance(st.target, ast.Name) and st.target.id == "max_small_integer"]
@@ -402,6 +445,7 @@ ITEMS = [
     ("default_allowed_numbers", default_allowed),
     ("allowed_fallbacks", allowed_fallbacks),
     ("max_small", max_small),
+    ("fallback_chains", fallback_chains),
     ("cfg_section_keys", section_keys),
     ("py_numeric_types", py_numeric_types),
     ("py_context_guards", py_context_guards),
